@@ -6,6 +6,7 @@ package main
 import (
 	"fmt"
 	"go/token"
+	"go/types"
 	"math/big"
 	"strings"
 
@@ -341,6 +342,38 @@ func c20(p *Prog, r *Report) {
 				}
 			}
 			r.Check(n > 0 && bad == "", R4, "signing only for a registered origin", p.Pos(ev.Pos()), fmt.Sprintf("%d signing site(s) dominated by the lookup hit", n), firstNonEmpty(bad, "no signing site found"))
+			// a registered origin is served: no other refusal of Evaluate is decided
+			// by the recovered name or by the padded bytes it was recovered from
+			// (what is derived from the registry hit - the index key - is not the name)
+			ff := p.Facts(ev)
+			edgeOK := acceptingEdges(ff, ev)
+			nRej, badRej := 0, ""
+			for _, b := range ev.Blocks {
+				if ff.dead[b] {
+					continue
+				}
+				ifi, ok := b.Instrs[len(b.Instrs)-1].(*ssa.If)
+				if !ok || len(b.Succs) != 2 || edgeOK(b, b.Succs[0]) == edgeOK(b, b.Succs[1]) {
+					continue
+				}
+				nRej++
+				c := ifi.Cond
+				for {
+					if u, ok := c.(*ssa.UnOp); ok && u.Op == token.NOT {
+						c = u.X
+						continue
+					}
+					break
+				}
+				if c == okVal {
+					continue
+				}
+				if w := dependsOnOriginName(c, map[ssa.Value]bool{}, 0); w != nil {
+					badRej = "the refusal at " + p.InstrPos(ifi) + " is decided by the origin name itself (" + p.InstrPos(w.(ssa.Instruction)) + "), not by the registry lookup"
+				}
+			}
+			registryKeysAgree(p, r, R4)
+			r.Check(nRej > 0 && badRej == "", R4, "a name is refused only by the registry lookup", p.Pos(ev.Pos()), fmt.Sprintf("%d rejecting branches, none but the lookup miss depends on the recovered name or its padded form", nRej), firstNonEmpty(badRej, "no rejecting branch found"))
 		}
 	}
 }
@@ -930,4 +963,45 @@ func affTruth(s *Sym, f Atom, n affine, depth int) (truth, known bool) {
 		v = !v
 	}
 	return v, true
+}
+
+// dependsOnOriginName: the operand closure of v (not crossing a map lookup)
+// contains the recovered origin name (a call of unpadOriginName) or a read of
+// an InnerTokenRequest's paddedOrigin field; returns that value.
+func dependsOnOriginName(v ssa.Value, seen map[ssa.Value]bool, depth int) ssa.Value {
+	if v == nil || seen[v] || depth > 40 {
+		return nil
+	}
+	seen[v] = true
+	switch x := v.(type) {
+	case *ssa.Lookup:
+		if _, isMap := x.X.Type().Underlying().(*types.Map); isMap {
+			return nil
+		}
+	case *ssa.Call:
+		if g := x.Call.StaticCallee(); g != nil && g.Name() == "unpadOriginName" {
+			return x
+		}
+	case *ssa.Field:
+		if st, ok := x.X.Type().Underlying().(*types.Struct); ok && st.Field(x.Field).Name() == "paddedOrigin" {
+			return x
+		}
+	case *ssa.FieldAddr:
+		if fieldNameOf(x) == "paddedOrigin" {
+			return x
+		}
+	}
+	in, ok := v.(ssa.Instruction)
+	if !ok {
+		return nil
+	}
+	for _, op := range in.Operands(nil) {
+		if op == nil || *op == nil {
+			continue
+		}
+		if w := dependsOnOriginName(*op, seen, depth+1); w != nil {
+			return w
+		}
+	}
+	return nil
 }
